@@ -158,7 +158,8 @@ int main(int argc, char **argv) {
             have = rc == 0;
             log_views();
             vh_end();
-        } else if (vh_is("BUILD")) {
+        } else if (vh_is("BUILD") || vh_is("BUILDF")) {
+            bool free_host = vh_is("BUILDF"); /* a host text outside what the parser reads back: only the text is judged */
             /* BUILD sch host v6 port path N | S q | L n k1 v1 ... ; sch "X" = no scheme, port decimal (0 = none).
              * host is the bare host text; v6=1 hands "[" host "]" to the builder */
             drop();
@@ -204,7 +205,7 @@ int main(int argc, char **argv) {
                 opt.query_params = &params;
             }
             int rc = aws_uri_init_from_builder_options(&cur, vh_alloc(), &opt);
-            vh_begin("Build");
+            vh_begin(free_host ? "BuildFree" : "Build");
             vh_int("hs", sch.n > 0);
             vh_bytes("sch", sch.p, sch.n);
             vh_bytes("host", host.p, host.n);
